@@ -152,3 +152,28 @@ Example C03_struct_paths_example :
   is_ok (xserialize w_words w_pu 8 (xs_env xs_tab) xs_nested v) = true /\
   xpresent (xs_env xs_tab) xs_nested_si v xs_nested_props = [("in", xs_inner_v 1 "q"); ("x", vi64 3)].
 Proof. exact xs_paths_accept. Qed.
+
+(* ---------- one-of over struct-mapped members, native values (known finding D85) ----------
+   For RAW values a one-of is routed solely by its discriminator (C03_oneof_routes).  A native STRUCT value is dispatched by its
+   Go type (oneof.go findUnderlyingType), and an INLINED discriminator is then just a property of the member: when the member's
+   own discriminator field is unset or names the member, what Serialize returns carries the member's key and is routed back to
+   it; when it names ANOTHER member, Validate and Serialize still accept the value and the serialized form is rejected by
+   Unserialize (or routed elsewhere).  The full statement "Validate / Serialize accept a native one-of value exactly when
+   Unserialize accepts its content, through the same member" is therefore refuted in the faithful model: *)
+From Verif Require Import Proofs.XOneOfNative.
+
+Theorem C03_oneof_native_dispatch_refuted :
+  exists (e : xenv) (s : xschema) (n w : gval),
+    is_ok (xvalidate d85_words d85_pu 50 e s n) = true /\
+    xserialize d85_words d85_pu 50 e s n = Ok w /\
+    is_err (xunser d85_words d85_pu 50 e s w) = true.
+Proof. exact x_oneof_native_discriminator_refuted. Qed.
+Print Assumptions C03_oneof_native_dispatch_refuted.
+
+(* the discriminator unset: Serialize supplies the key of the member the value was dispatched to, and the result is routed back *)
+Example C03_oneof_native_dispatch_example :
+  let n := VStruct (TStruct "XKindP") [("Kind", VPtr (TPtr TStr) None); ("X", vstr "v")] in
+  xserialize d85_words d85_pu 50 d85_env d85_oneof n = Ok (VMap t_str_map false [(vstr "x", vstr "v"); (vstr "kind", vstr "a")]) /\
+  xunser d85_words d85_pu 50 d85_env d85_oneof (VMap t_str_map false [(vstr "x", vstr "v"); (vstr "kind", vstr "a")])
+  = Ok (VStruct (TStruct "XKindP") [("Kind", VPtr (TPtr TStr) (Some (vstr "a"))); ("X", vstr "v")]).
+Proof. exact x_oneof_native_discriminator_unset_ok. Qed.
